@@ -59,6 +59,9 @@ def parseLetters (s : String) : Option (List Nat) := s.toList.mapM fun c => task
 
 inductive Crash where
   | none | kill (j : Nat) | before (j : Nat) | torn (j : Nat) | after (j : Nat)
+  /-- the j-th write of the cache file fails with an error and leaves the file as it was: for the file, the ghost and
+      everything later this is an invocation that ends just before that write — except that it *returns* an error -/
+  | error (j : Nat)
 
 def parseCrash (s : String) : Option Crash :=
   match s.toList with
@@ -67,6 +70,7 @@ def parseCrash (s : String) : Option Crash :=
   | 'B' :: r => (String.ofList r).toNat?.map .before
   | 'T' :: r => (String.ofList r).toNat?.map .torn
   | 'A' :: r => (String.ofList r).toNat?.map .after
+  | 'E' :: r => (String.ofList r).toNat?.map .error
   | _ => none
 
 def parseTrace (good bad : String) (s : String) : Option (List (Name × Out)) :=
@@ -118,6 +122,7 @@ def crashSteps (s0 : St) (n : Nat) (c : Crash) : Option Nat :=
     (idx.find? fun (_, s) => (match s.pc with | .invalidated _ => true | _ => false) && (s.out.filter isRun).length + 1 == j).map (·.1)
   | .torn j => tornAt j
   | .before j => (tornAt j).map (· - 1)
+  | .error j => (tornAt j).map (· - 1)
   | .after j => (tornAt j).map (· + 1)
 
 def outStr : Out → String
@@ -193,7 +198,10 @@ def stepCase (o : Obs) (a : Acc) (ev : String) : Option Acc :=
     pure { a with
       w := r.1, events := a.events ++ [.edit inpF, e],
       oevents := a.oevents ++ [.edit inpF, .invoke force sel itrace ierr (parseCacheCls icache)],
-      res := a.res ++ [mres], exec := a.exec ++ [mexec], err := a.err ++ [errStr (outcomeOf crashAt s)],
+      res := a.res ++ [mres], exec := a.exec ++ [mexec],
+      err := a.err ++ [match cr, crashAt with
+        | .error _, some _ => "other"       -- a write error is reported, not a kill
+        | _, _ => errStr (outcomeOf crashAt s)],
       cache := a.cache ++ [cacheStr tasks s.disk], k := a.k + 1 }
   | _ => none
 
@@ -225,7 +233,9 @@ def handle (line : String) : String :=
         let model := s!"RES {sl a.res} ; EXEC {sl a.exec} ; ERR {sl a.err} ; CACHE {sl a.cache}"
         let oh := a.oevents
         let v01 := b2s (c01 oh)
-        let v02 := if hasCrash oh then "na" else b2s (c02 oh)
+        -- an invocation cut short by a write error is no more a completed run than a killed one
+        let cut := o.cr.any fun c => match c with | .error _ => true | _ => false
+        let v02 := if hasCrash oh || cut then "na" else b2s (c02 oh)
         let v10 := if hasCrash oh then b2s (c10 oh) else "na"
         let v14 := if hasForced oh then b2s (c14 oh) else "na"
         s!"{model} || C01={v01} C02={v02} C10={v10} C14={v14}"
